@@ -91,3 +91,57 @@ Print Assumptions C13_fee_no_miss_semantic.
 Print Assumptions C13_fee_cleared_sound.
 Print Assumptions C13_rekey_no_miss_semantic_partial.
 Print Assumptions C13_cleared_when_excluded_at_every_exit.
+
+(* ------------------------------------------------------------------------------------------------------------
+   Extension (third round) *)
+From Coq Require Import List String NArith ZArith Bool Arith Permutation.
+From Tealer Require Import Tables Leaves LeafPrelude Syntax Parse Cfg StackAst Keys Analysis Domains Detect Group Runs Eval Exec ExecLemmas GroupLemmas NoMiss NoMiss2 TypeExec GroupSem GroupSem2 Base64 ParseLemmas2 Base64Lemmas.
+
+(* semantic clause for can-close-account (can-close-asset, is-updatable/deletable, unprotected-* are analogous theorems of Lemmas/GroupSem2.v) *)
+Theorem C13_can_close_account_no_miss_semantic_partial :
+  forall (funcs : list (func * fn_result)) (group : list gtxn) (G : cgroup) (posn : string -> N) (a : string) (t : gtxn),
+       group_base_ok funcs group ->
+       In t group ->
+       a <> "ZERO" ->
+       LeafLemmas.is_marker a = false ->
+       g_has_logic_sig t = true ->
+       consistent_with (addr_side funcs group posn "CloseRemainderTo" a) funcs group G posn ->
+       group_kind_ok funcs group posn "Pay" 1 0 0 ->
+       In (g_type t) ("Any" :: "Unknown" :: "Pay" :: nil) ->
+       cg_kind G (posn (g_id t)) 1 0 0 ->
+       cg_field G (posn (g_id t)) "CloseRemainderTo" = VAddr a ->
+       txn_vulnerable funcs checks_can_close_account "STATELESS" (Some ("Any" :: "Unknown" :: "Pay" :: nil)) group t = true.
+Proof. exact @group_closeto_no_miss_partial. Qed.
+
+Theorem C13_is_updatable_no_miss_semantic_partial :
+  forall (funcs : list (func * fn_result)) (group : list gtxn) (G : cgroup) (posn : string -> N) (t : gtxn) (kapp : nat) (ap : N),
+       consistent funcs group G posn ->
+       group_base_ok funcs group ->
+       In t group ->
+       g_application t = Some kapp ->
+       group_kind_ok funcs group posn "ApplUpdateApplication" 6 4 ap ->
+       cg_kind G (posn (g_id t)) 6 4 ap -> txn_vulnerable funcs checks_is_updatable "STATEFULL" None group t = true.
+Proof. exact @group_updatable_no_miss_partial. Qed.
+
+(* the verdict does not depend on the order in which the transactions are listed (distinct ids) *)
+Theorem C13_verdict_independent_of_listing_order :
+  forall (funcs : list (func * fn_result)) (checks : bctx -> bool) (dtype : string) (vtypes : option (list string)) (group group' : list gtxn),
+       Permutation group group' ->
+       NoDup (map g_id group) ->
+       forall id : string, In id (group_verdict funcs checks dtype vtypes group) <-> In id (group_verdict funcs checks dtype vtypes group').
+Proof. exact @group_verdict_perm. Qed.
+
+(* ... the distinct-ids hypothesis is necessary *)
+Theorem C13_listing_order_needs_distinct_ids_refuted :
+  exists (funcs : list (func * fn_result)) (checks : bctx -> bool) (group group' : list gtxn),
+         Permutation group group' /\
+         ~
+         (forall id : string,
+          In id (group_verdict funcs checks "STATELESS_AND_STATEFULL" None group) <->
+          In id (group_verdict funcs checks "STATELESS_AND_STATEFULL" None group')).
+Proof. exact @group_verdict_perm_dup_refuted. Qed.
+
+Print Assumptions C13_can_close_account_no_miss_semantic_partial.
+Print Assumptions C13_is_updatable_no_miss_semantic_partial.
+Print Assumptions C13_verdict_independent_of_listing_order.
+Print Assumptions C13_listing_order_needs_distinct_ids_refuted.
